@@ -48,6 +48,13 @@ declare -A DEMO=(
  [C18b_parse_mode_hoisted]="-p yash-builtin --test c18b_option_change_takes_effect_on_next_line"
  [C19b_stopped_killed_keeps_fds]="-p yash-builtin --test c19b_stopped_child_pipe_eof"
  [C20b_double_separator]="-p yash-builtin --test c20b_separator_operand"
+ [C05c_quoted_leading_period]="-p yash-semantics --test c05c_quoted_leading_period"
+ [C07c_umask_symbolic_clauses]="-p yash-builtin --test c07c_umask_symbolic_listing"
+ [C08c_async_ignore_not_installed]="-p yash-semantics --test c08c_async_after_trap_reset"
+ [C10c_errexit_exemption_stops_at_subshell]="-p yash-semantics --test c10c_errexit_subshell_in_condition"
+ [C11c_stale_pending_kept]="-p yash-builtin --test c11c_stale_pending"
+ [C13c_bang_reset_on_empty_joblist]="-p yash-builtin --test c13c_async_pid_after_wait"
+ [C15c_batch_run_until_stalled]="-p yash-executor --test c15c_run_until_stalled"
 )
 suite() { # runs the pinned suite in $WT, prints number of baseline tests missing
   (cd $WT && cargo nextest run --workspace --no-fail-fast --tool-config-file pb:/w/lib/nextest.toml --profile pb --test-threads 8 --offline >/dev/null 2>&1
